@@ -103,18 +103,28 @@ class Vec(object):
     def __repr__(self): return "Vec(%r)" % (self.xs,)
     def __call__(self, k=1): return sum(self.xs) * k
     def __enter__(self): self.xs.append("in"); return self
-    def __exit__(self, t, v, tb): self.xs.append("out"); return False
+    swallow = False
+    def __exit__(self, t, v, tb): self.xs.append("out" if t is None else "out-after-exception"); return self.swallow
     @property
     def total(self): return sum(x for x in self.xs if isinstance(x, int))
     def push(self, v, times=1): self.xs.extend([v] * times); return len(self.xs)
+class SwallowingVec(Vec):
+    """a context manager whose __exit__ swallows the exception raised in the body"""
+    swallow = True
 def gen3():
     yield 1; yield 2; yield 3
 MAKERS = {
     "list": lambda: [3, 1, 2], "dict": lambda: {"a": 1, "b": 2}, "set": lambda: {1, 2}, "bytearray": lambda: bytearray(b"abc"),
     "deque": lambda: collections.deque([1, 2, 3], maxlen=4), "gen": gen3, "file": lambda: io.StringIO("l1\\nl2\\n"), "vec": lambda: Vec(),
+    "ctx": lambda: SwallowingVec(),
 }
 def with_ctx(x):
     with x as y: return y.__class__.__name__
+def with_raise(x):
+    # the body raises: a context manager whose __exit__ returns a true value swallows the exception
+    with x:
+        raise KeyError("raised in the with body")
+    return "swallowed"
 OPS = {
     "list": ["x.append(5)", "x.pop()", "x.pop(7)", "x[0]", "x[9]", "x[-1]", "x[1:]", "x.sort()", "len(x)", "x.index(2)", "x.index(42)", "x == x", "x != (1,)",
              "bool(x)", "x.reverse()", "x[0] = 9", "del x[0]", "x + x", "x * 2", "list(x)", "5 in x", "x.insert(1, 'z')", "x.clear()", "x.extend((8, 9))",
@@ -125,9 +135,10 @@ OPS = {
     "bytearray": ["x[0]", "x[5]", "x.append(100)", "x.append(300)", "len(x)", "x.decode()", "x[0:2]", "x += b'z'", "x.extend(b'qq')", "x == b'abc'", "x.upper()", "x.find(b'c')", "x.pop()", "x.reverse()"],
     "deque": ["x.append(9)", "x.appendleft(0)", "x.pop()", "x.popleft()", "len(x)", "list(x)", "x[0]", "x[8]", "x.rotate(1)", "x.maxlen", "x.clear()", "x.extend((7, 7, 7))", "3 in x", "x.count(1)"],
     "gen": ["next(x)", "list(x)", "x.send(None)", "x.close()", "next(x, 'end')", "sum(x)", "iter(x) is x or True"],
-    "file": ["x.read()", "x.readline()", "x.read(2)", "x.tell()", "x.seek(1)", "x.write('w')", "x.getvalue()", "x.close()", "x.closed", "list(x)", "x.readlines()", "with_ctx(x)", "x.truncate(2)", "x.nosuch"],
+    "file": ["x.read()", "x.readline()", "x.read(2)", "x.tell()", "x.seek(1)", "x.write('w')", "x.getvalue()", "x.close()", "x.closed", "list(x)", "x.readlines()", "with_ctx(x)", "with_raise(x)", "x.truncate(2)", "x.nosuch"],
+    "ctx": ["with_raise(x)", "with_ctx(x)", "x.xs", "len(x)", "x.swallow"],
     "vec": ["x + x", "(x + 1).xs", "x == x", "x != 0", "len(x)", "x[0]", "x[5]", "x[0] = 4", "list(x)", "2 in x", "bool(x)", "repr(x)", "x()", "x(k=3)", "x.total", "x.push(9)", "x.push(1, times=2)",
-            "with_ctx(x)", "x.xs", "x._hidden", "x.nope", "x.total = 3", "x.extra = 1", "del x.xs", "hash(x) == hash(tuple(x.xs)) if all(isinstance(i, int) for i in x.xs) else True",
+            "with_ctx(x)", "with_raise(x)", "x.swallow = True", "x.xs", "x._hidden", "x.nope", "x.total = 3", "x.extra = 1", "del x.xs", "hash(x) == hash(tuple(x.xs)) if all(isinstance(i, int) for i in x.xs) else True",
             "isinstance(x, Vec)", "x.__class__.__name__", "str(x)"],
 }
 def norm(v, depth=0):
@@ -158,7 +169,7 @@ def state_of(kind, obj):
     if kind == "file": return ("file", obj.closed, None if obj.closed else obj.getvalue(), None if obj.closed else obj.tell())
     return norm(copy.deepcopy(obj) if kind != "vec" else obj)
 def apply(op, x):
-    env = {"x": x, "Vec": Vec, "with_ctx": with_ctx}
+    env = {"x": x, "Vec": Vec, "with_ctx": with_ctx, "with_raise": with_raise}
     try:
         if any(op.startswith(p) for p in ("del ",)) or (" = " in op and "==" not in op) or "+=" in op:
             exec(op, env); return ("ok", None)
@@ -209,7 +220,7 @@ def ob_transparency(run, seqlen):
         import json
         import os
         import tempfile
-        o.symbolic = ["operation sequences of length <= %d from per-type pools (8 target types, 14-36 operations each incl. error cases), 3 configurations" % seqlen]
+        o.symbolic = ["operation sequences of length <= %d from per-type pools (9 target types, 14-36 operations each incl. error cases), 3 configurations" % seqlen]
         o.bounds = {"sequence_length": seqlen, "decided_by": "exhaustive differential execution on two real connections vs a local twin (no solver variables)"}
         script = DIFF_RUNNER + '''
 import json
